@@ -17,6 +17,11 @@ void quad_ops() {
   (void)bspline::integration::integrate<1>(f, a, b);
   (void)bspline::integration::integrate<2>(f, a, b);
   (void)bspline::integration::integrate<5>(f, a, b);
+  // sizes that are not among boost's pre-tabulated rules, and weights whose result type is not the scalar type
+  (void)bspline::integration::integrate<8>(f, a, b);
+  (void)bspline::integration::integrate<11>(f, a, b);
+  (void)bspline::integration::integrate<3>([](const double &) { return 1; }, a, b);
+  (void)bspline::integration::integrate<3>([](const double &x) { return static_cast<float>(x); }, a, b);
 }
 #ifdef BSPLINE_INTERPOLATION_USE_EIGEN
 template <size_t O>
